@@ -826,6 +826,25 @@ impl Component for Conn {
                         mon.fail("C05", "nak-multi-charge", format!("NAK {nk} changed links {changed:?}"));
                     }
                     let holders: Vec<usize> = (0..self.links.len()).filter(|i| before[*i].keys.contains(&ni)).collect();
+                    // C02: "retired ... by a NAK charged to that link" - WHICH link is decided independently of the
+                    // implementation's tracker: the ghost's remembered carrier (newest routing of the number within
+                    // 5 s, still present) if it holds the number, else nobody while the ghost remembers a present
+                    // link, else the first holder
+                    {
+                        let ghost = match self.trk_ghost.get(&(*nk % 16384)) {
+                            Some((sq, cid, t)) if *sq == *nk && *cid != 0 && now.saturating_sub(*t) <= 5000 => Some(*cid),
+                            _ => None,
+                        };
+                        let ghost_pos = ghost.and_then(|cid| self.links.iter().position(|c| c.conn_id == cid));
+                        let want: Vec<usize> = match ghost_pos {
+                            Some(p) if holders.contains(&p) => vec![p],
+                            Some(_) => vec![],
+                            None => holders.first().map(|h| vec![*h]).unwrap_or_default(),
+                        };
+                        if changed != want && !self.inf_injected {
+                            mon.fail("C02", "nak-retired-on-wrong-link", format!("NAK {nk}: holders {holders:?}, the number was last routed to link {ghost_pos:?} (remembered); it must be retired on {want:?} but links {changed:?} changed"));
+                        }
+                    }
                     if holders.is_empty() && !changed.is_empty() {
                         mon.fail("C05", "nak-unknown-changed", format!("NAK {nk} held by no link changed links {changed:?}"));
                     }
